@@ -137,7 +137,7 @@ Print Assumptions C17_concurrent_posts_never_stall.
    the processor's handle_message (C02) into one node on ONE clock, and such nodes into a network.  A history is a list of events
    (LClock t, LCleanup, LAdmin r, LPump, LGossip from msg, LPurge, LWatch chain, LEnv input); [lrun st H] = (final state, trace), the
    trace listing what every component did with the clock reading at which it did it; [lstates st H] = the state each step starts in. *)
-From WH Require Import gen.ExtractedWiring gen.ExtractedP2P model.Vaa model.Processor model.ReobsLoop proofs.ReobsLoopProofs.
+From WH Require Import gen.ExtractedWiring model.Vaa model.Processor model.ReobsLoop proofs.ReobsLoopBase.
 
 (* the hops the composition assumes (who writes / reads obsvReqSendC, obsvReqC, chainObsvReqC[chain]; which chains have a watcher
    queue) are the wiring read from node.go on this run (gen/x_wiring.py); the queue capacities are the extracted constants *)
@@ -172,33 +172,6 @@ Theorem C17_forwarded_again_between : forall st t0 ops k t stau tau s2 r2 u o2,
   exists s r f c, In (s, Reobserve.Req r f, Reobserve.Forward c) (Reobserve.run st ops) /\ Reobserve.key_of r = k /\ t < f <= u.
 Proof. exact forward_between. Qed.
 
-(* (a) CADENCE of the loop, upper bound B = window + purge period + retry period + cleanup ticker period = 23 min 30 s (all four
-   extracted).  From any state reached with the invariant (the initial state is one), over any continuation with monotone clock, for
-   any instant t: if the message of digest h (emitter chain c, transaction tx) is pending - signed, not submitted, settled, budget
-   not spent, no quorum VAA stored, five minutes old - at every cleanup tick in (t, t + B], a purge tick falls in (t + 11, t + 18 min],
-   cleanup ticks come at most 30 s apart in (t + 11, t + 23 min], p2p's request goroutine keeps up, and neither obsvReqSendC nor the
-   watcher queue of chain c overflows, then the watcher of chain c receives a request for tx at some instant in (t, t + B] *)
-Theorem C17_loop_cadence :
-  forall recover keccak sign own gov_chain gov_addr decode_hb decodeq encq self disable watch H st0 h c tx t,
-  let lrun := lrun recover keccak sign own gov_chain gov_addr decode_hb decodeq encq self disable watch in
-  let lstates := lstates recover keccak sign own gov_chain gov_addr decode_hb decodeq encq self disable watch in
-  LInv st0 -> cache_wf (l_disp st0) -> known (l_disp st0) (c mod 65536) ->
-  (forall t', In (key_of_msg c tx, t') (Reobserve.cache (l_disp st0)) -> t' <= t) ->
-  lmono (l_now st0) H -> l_now st0 <= t ->
-  (forall s, In (s, LCleanup) (lstates st0 H) -> t < l_now s <= t + loop_bound -> pending_at s h c tx) ->
-  (exists s, In (s, LPurge) (lstates st0 H) /\ t + reobs_window < l_now s <= t + reobs_window + reobs_period) ->
-  (forall a, t + reobs_window < a <= t + reobs_window + reobs_period + proc_retry_ns ->
-     exists s, In (s, LCleanup) (lstates st0 H) /\ a < l_now s <= a + proc_tick_ns) ->
-  drained recover keccak sign own gov_chain gov_addr decode_hb decodeq encq self disable watch st0 H ->
-  (forall u r, ~ In (u, EPost r Reobserve.PostErrChanFull) (snd (lrun st0 H))) ->
-  (forall u s r f, Reobserve.key_of r = key_of_msg c tx -> ~ In (u, EDisp s (Reobserve.Req r f) Reobserve.DropFull) (snd (lrun st0 H))) ->
-  exists u s r f x, In (u, EDisp s (Reobserve.Req r f) (Reobserve.Forward x)) (snd (lrun st0 H)) /\
-    Reobserve.key_of r = key_of_msg c tx /\ t < f <= t + loop_bound.
-Proof. exact loop_forward_within. Qed.
-
-Theorem C17_loop_bound_is_23_min_30_s : loop_bound = reobs_window + reobs_period + proc_retry_ns + proc_tick_ns /\ loop_bound = 1410 * 10 ^ 9.
-Proof. split; [reflexivity|exact loop_bound_value]. Qed.
-
 (* (a) lower bound and (b) NO AMPLIFICATION: in every history of the composition - local retries, admin requests, verified requests of
    any number of peers, at any rate - two forwards of one (chain, transaction) to its watcher are more than 11 minutes apart *)
 Theorem C17_loop_forwards_more_than_window_apart :
@@ -209,25 +182,6 @@ Theorem C17_loop_forwards_more_than_window_apart :
   Reobserve.key_of r1 = Reobserve.key_of r2 -> reobs_window < t2 - t1.
 Proof. exact loop_forwards_window_apart. Qed.
 
-(* the network hop: what node i's request goroutine publishes for r is on the wire, and when the network delivers it to node j
-   (relayed by any peer but j itself), j's receive loop verifies it against j's guardian set and j's dispatcher handles [Req r] at j's
-   clock reading - provided i is a member of that set, i's signer is consistent with recovery, the request is decodable and not below
-   the verifier's length floor *)
-Theorem C17_loop_request_reaches_every_peer :
-  forall recover keccak gov_chain gov_addr decode_hb decodeq encq disable owns signs selfs watches n i j from k r stj Gk,
-  nth_error (x_nodes n) j = Some stj ->
-  nth_error (x_pool n) k = Some (WReq (owns i) (encq r) (signs i (keccak (p2p_req_preimage (encq r))))) ->
-  P2PVerify.n_gs (l_p2p stj) = Some Gk -> In (owns i) Gk -> bytes_to_address (owns i) = owns i -> from <> selfs j ->
-  decodeq (encq r) = Some r -> p2p_req_too_short (Z.of_nat (length (encq r))) = false ->
-  P2PVerify.prec recover (keccak (p2p_req_preimage (encq r))) (signs i (keccak (p2p_req_preimage (encq r)))) = Some (owns i) ->
-  In (l_now stj, EDisp (l_disp stj) (Reobserve.Req r (l_now stj)) (snd (Reobserve.step (l_disp stj) (Reobserve.Req r (l_now stj)))))
-     (snd (lnstep recover keccak gov_chain gov_addr decode_hb decodeq encq disable owns signs selfs watches n (XDeliver j from k))).
-Proof. exact lnet_request_reaches_peer. Qed.
-
-Theorem C17_loop_published_request_is_on_the_wire : forall keccak encq owns signs i u r evs, In (u, EPub r) evs ->
-  In (WReq (owns i) (encq r) (signs i (keccak (p2p_req_preimage (encq r))))) (flat_map (wire_of keccak encq owns signs i) evs).
-Proof. exact published_on_wire. Qed.
-
 (* a forwarded request sits in the queue of the chain it names; what a watcher takes from its queue names its chain *)
 Theorem C17_loop_forwarded_is_queued : forall d r now c, snd (Reobserve.step d (Reobserve.Req r now)) = Reobserve.Forward c ->
   exists q, Reobserve.find_queue (Reobserve.queues (fst (Reobserve.step d (Reobserve.Req r now)))) c = Some q /\ In r (Reobserve.q_items q).
@@ -235,99 +189,10 @@ Proof. exact forwarded_is_queued. Qed.
 Theorem C17_loop_queues_hold_requests_of_their_chain : forall ops, queues_named (Reobserve.final (Reobserve.init node_queues) ops).
 Proof. intros ops. apply queues_named_final. exact queues_named_init. Qed.
 
-(* ---------------------------------------------------------------- a computed history of the composed node (toy crypto oracles) *)
-Definition lx_own : addr := repeat x01 20.
-Definition lx_recover (h s : bytes) : option bytes := Some (firstn 20 s).
-Definition lx_keccak (b : bytes) : bytes := repeat x00 32.
-Definition lx_sign (d : bytes) : bytes := lx_own ++ repeat x00 45.
-Definition lx_msg : msgpub := {| m_tx := [x07]; m_ts := 1700000000; m_tns := 0; m_nonce := 1; m_seq := 5; m_cl := 1;
-                                 m_echain := 2; m_tchain := 255; m_eaddr := repeat x02 32; m_payload := [x01; x02] |}.
-Definition lx_G : gset := {| keys := [lx_own; repeat x03 20]; gidx := 3 |}.       (* two guardians: the node alone never has quorum *)
-Definition lx_sec : Z := 1000000000.
-Definition lx_run := lrun lx_recover lx_keccak lx_sign lx_own 1 (repeat x00 32) (fun _ => None) (fun _ => None) (fun _ => []) [x09] false (fun _ _ _ => []).
-Definition lx_states := lstates lx_recover lx_keccak lx_sign lx_own 1 (repeat x00 32) (fun _ => None) (fun _ => None) (fun _ => []) [x09] false (fun _ _ _ => []).
-(* every 30 s: the clock, the purge ticker at multiples of 7 min, the cleanup ticker, p2p's request goroutine, the watcher *)
-Fixpoint lx_ticks (n : nat) (t : Z) : list lop :=
-  match n with
-  | O => []
-  | S k => (LClock t :: (if (t / lx_sec) mod 420 =? 0 then [LPurge] else []) ++ [LCleanup; LPump; LWatch 2]) ++ lx_ticks k (t + 30 * lx_sec)
-  end.
-Definition lx_H : list lop := [LEnv (VSetGS lx_G); LEnv (VMsg lx_msg); LEnv (VLoop 0)] ++ lx_ticks 121 (30 * lx_sec).
-Definition lx_requests (tr : list tev) : list (Z * Z) :=      (* (second, 0 forwarded / 1 duplicate / 2 full / 3 unknown) *)
-  flat_map (fun e => match snd e with
-                     | EDisp _ (Reobserve.Req _ t) x => [(t / lx_sec, match x with Reobserve.Forward _ => 0 | Reobserve.DropDup => 1 | Reobserve.DropFull => 2 | _ => 3 end)]
-                     | _ => [] end) tr.
-
-(* THE NAIVE EXPECTATION "a re-observation every five minutes" IS FALSE FOR THE COMPOSITION: the pending message is retried every
-   5 minutes for an hour (12 requests), the watcher sees 3 of them: at 5, 25 and 45 minutes (gaps of 20 min <= B = 23.5 min) *)
-Example C17_loop_every_five_minutes_is_false :
-  lx_requests (snd (lx_run linit lx_H)) =
-  [(300, 0); (600, 1); (900, 1); (1200, 1); (1500, 0); (1800, 1); (2100, 1); (2400, 1); (2700, 0); (3000, 1); (3300, 1); (3600, 1)].
-Proof. vm_compute. reflexivity. Qed.
-
-(* the hypotheses of C17_loop_cadence hold for that history with t = 5 min (first forward): invariant, empty cache, monotone clock,
-   pending at every cleanup tick in (5 min, 28.5 min], the purge tick at 21 min, a cleanup tick every 30 s, request goroutine keeping
-   up, no overflow - and the conclusion: a forward in (5 min, 28.5 min] (it is the one at 25 min) *)
-Definition lx_h : bytes := repeat x00 32.
-Example C17_loop_cadence_hypotheses_satisfiable :
-  let t := 300 * lx_sec in
-  LInv linit /\ cache_wf (l_disp linit) /\ known (l_disp linit) (2 mod 65536) /\
-  lmono (l_now linit) lx_H /\ l_now linit <= t /\
-  (forall s, In (s, LCleanup) (lx_states linit lx_H) -> t < l_now s <= t + loop_bound -> pending_at s lx_h 2 [x07]) /\
-  (exists s, In (s, LPurge) (lx_states linit lx_H) /\ t + reobs_window < l_now s <= t + reobs_window + reobs_period) /\
-  (forall a, t + reobs_window < a <= t + reobs_window + reobs_period + proc_retry_ns ->
-     exists s, In (s, LCleanup) (lx_states linit lx_H) /\ a < l_now s <= a + proc_tick_ns) /\
-  drained lx_recover lx_keccak lx_sign lx_own 1 (repeat x00 32) (fun _ => None) (fun _ => None) (fun _ => []) [x09] false (fun _ _ _ => []) linit lx_H /\
-  (forall u r, ~ In (u, EPost r Reobserve.PostErrChanFull) (snd (lx_run linit lx_H))) /\
-  (forall u s r f, Reobserve.key_of r = key_of_msg 2 [x07] -> ~ In (u, EDisp s (Reobserve.Req r f) Reobserve.DropFull) (snd (lx_run linit lx_H))) /\
-  exists u s r f x, In (u, EDisp s (Reobserve.Req r f) (Reobserve.Forward x)) (snd (lx_run linit lx_H)) /\ Reobserve.key_of r = key_of_msg 2 [x07] /\ t < f <= t + loop_bound.
-Proof.
-  cbv zeta.
-  assert (Hst : exists l, l = lx_states linit lx_H) by (eexists; reflexivity). destruct Hst as (states & Est).
-  assert (Htr : exists l, l = snd (lx_run linit lx_H)) by (eexists; reflexivity). destruct Htr as (tr & Etr).
-  assert (P5 : forall s, In (s, LCleanup) states -> 300 * lx_sec < l_now s <= 300 * lx_sec + loop_bound -> pending_at s lx_h 2 [x07]).
-  { assert (Hb : forallb (fun so => implb (is_cleanup (snd so) && (300 * lx_sec <? l_now (fst so)) && (l_now (fst so) <=? 300 * lx_sec + loop_bound))
-                                         (pending_atb (fst so) lx_h 2 [x07])) states = true) by (rewrite Est; vm_compute; reflexivity).
-    intros s Hin [A B]. pose proof (forallb_states _ _ Hb _ Hin) as X. cbn [fst snd is_cleanup andb] in X.
-    apply Z.ltb_lt in A. apply Z.leb_le in B. rewrite A, B in X. apply pending_atb_sound. exact X. }
-  assert (P6 : exists s, In (s, LPurge) states /\ 300 * lx_sec + reobs_window < l_now s <= 300 * lx_sec + reobs_window + reobs_period).
-  { assert (Hb : existsb (fun so => is_purge (snd so) && (300 * lx_sec + reobs_window <? l_now (fst so)) && (l_now (fst so) <=? 300 * lx_sec + reobs_window + reobs_period)) states = true)
-      by (rewrite Est; vm_compute; reflexivity).
-    apply existsb_exists in Hb as ([s o] & Hin & X). cbn [fst snd] in X. apply andb_prop in X as [X C]. apply andb_prop in X as [A Bq].
-    destruct o; try discriminate A. exists s. split; [exact Hin|]. split; [apply Z.ltb_lt; exact Bq|apply Z.leb_le; exact C]. }
-  assert (P7 : forall a, 300 * lx_sec + reobs_window < a <= 300 * lx_sec + reobs_window + reobs_period + proc_retry_ns ->
-                 exists s, In (s, LCleanup) states /\ a < l_now s <= a + proc_tick_ns).
-  { assert (Hb : allz (fun k => existsb (fun so => is_cleanup (snd so) && (l_now (fst so) =? k * (30 * lx_sec))) states) 33 25 = true) by (rewrite Est; vm_compute; reflexivity).
-    intros a Ha. set (q := a / (30 * lx_sec)). pose proof (Z.div_mod a (30 * lx_sec) ltac:(discriminate)) as Hd. pose proof (Z.mod_pos_bound a (30 * lx_sec) ltac:(reflexivity)) as Hm.
-    fold q in Hd. unfold reobs_window, reobs_period, proc_retry_ns, proc_tick_ns, lx_sec in *.
-    assert (Hq : 33 <= q + 1 < 33 + Z.of_nat 25) by (cbn [Z.of_nat]; lia).
-    pose proof (allz_sound _ _ _ Hb (q + 1) Hq) as X. cbn beta in X. apply existsb_exists in X as ([s o] & Hin & Y). cbn [fst snd] in Y. apply andb_prop in Y as [A Bq].
-    destruct o; try discriminate A. apply Z.eqb_eq in Bq. exists s. split; [exact Hin|]. rewrite Bq. lia. }
-  assert (P8a : forall s t0, In (s, LClock t0) states -> l_sendq s = []).
-  { assert (Hb : forallb (fun so => implb (is_clock (snd so)) (match l_sendq (fst so) with [] => true | _ => false end)) states = true) by (rewrite Est; vm_compute; reflexivity).
-    intros s t0 Hin. pose proof (forallb_states _ _ Hb _ Hin) as X. cbn [fst snd is_clock implb] in X. destruct (l_sendq s); [reflexivity|discriminate]. }
-  assert (P9 : forallb (fun e => match snd e with EPost _ Reobserve.PostErrChanFull => false | EDisp _ _ Reobserve.DropFull => false | _ => true end) tr = true) by (rewrite Etr; vm_compute; reflexivity).
-  assert (P10 : existsb (fun e => match snd e with EDisp _ (Reobserve.Req r f) (Reobserve.Forward _) => (fst (Reobserve.key_of r) =? 2) && bytes_eqb (snd (Reobserve.key_of r)) [x07] && (300 * lx_sec <? f) && (f <=? 300 * lx_sec + loop_bound) | _ => false end) tr = true)
-    by (rewrite Etr; vm_compute; reflexivity).
-  subst states tr.
-  split; [exact linit_inv|]. split; [constructor|]. split; [vm_compute; discriminate|]. split; [apply lmonob_sound; vm_compute; reflexivity|]. split; [vm_compute; discriminate|].
-  split; [exact P5|]. split; [exact P6|]. split; [exact P7|]. split; [split; [exact P8a|vm_compute; reflexivity]|].
-  split; [intros u r Hin; pose proof (forallb_states _ _ P9 _ Hin) as X; discriminate X|].
-  split; [intros u s r f _ Hin; pose proof (forallb_states _ _ P9 _ Hin) as X; discriminate X|].
-  apply existsb_exists in P10 as ([u e] & Hin & X). cbn [snd] in X. destruct e as [| | |s o x|]; try discriminate X. destruct o as [r f| |]; try discriminate X. destruct x; try discriminate X.
-  apply andb_prop in X as [X D]. apply andb_prop in X as [X C]. apply andb_prop in X as [A Bq].
-  exists u, s, r, f, c. split; [exact Hin|]. split; [|split; [apply Z.ltb_lt; exact C|apply Z.leb_le; exact D]].
-  apply Z.eqb_eq in A. apply bytes_eqb_eq in Bq. unfold key_of_msg. destruct (Reobserve.key_of r) as [kc kt]. cbn [fst snd] in *. subst. reflexivity.
-Qed.
-
 Print Assumptions C17_loop_hops_are_the_wiring_of_node_go.
 Print Assumptions C17_loop_projects_onto_the_dispatcher.
 Print Assumptions C17_loop_dispatcher_clock_is_monotone.
 Print Assumptions C17_forwarded_again_between.
-Print Assumptions C17_loop_cadence.
-Print Assumptions C17_loop_bound_is_23_min_30_s.
 Print Assumptions C17_loop_forwards_more_than_window_apart.
-Print Assumptions C17_loop_request_reaches_every_peer.
-Print Assumptions C17_loop_published_request_is_on_the_wire.
 Print Assumptions C17_loop_forwarded_is_queued.
 Print Assumptions C17_loop_queues_hold_requests_of_their_chain.
